@@ -1,5 +1,5 @@
 """Rule registry: name -> callable(ctx, prop) -> RuleResult | [RuleResult]."""
-from . import trav, exh, backend, names, fields, compiler, memory, purity
+from . import trav, exh, backend, names, fields, compiler, memory, purity, determinism
 
 
 def _trav_scoped(classes, name):
@@ -39,6 +39,10 @@ RULES = {
     "MUT": purity.rule_mut,
     "ATTRSTORE": purity.rule_attrstore,
     "GLOBALSTATE": purity.rule_globalstate,
+    "SETITER": determinism.rule_setiter,
+    "SORTEDEMIT": determinism.rule_sortedemit,
+    "IDORDER": determinism.rule_idorder,
+    "REPRLEAK": determinism.rule_reprleak,
     "BACKPIPE": backend.rule_backpipe,
     "PAREMIT": backend.rule_paremit,
     "PARCHECK": backend.rule_parcheck,
